@@ -15,7 +15,7 @@ class Harness:
 
     def __init__(self, name, make=None, kind='E', impls=('py',), tiers=None,
                  encoded=(), bounds='', outside='', assumptions=(), run=None,
-                 stubs=(), oracle=''):
+                 stubs=(), oracle='', stub_kernel=False):
         self.name = name
         self.make = make
         self.kind = kind
@@ -28,6 +28,9 @@ class Harness:
         self.stubs = tuple(stubs)
         self.oracle = oracle
         self.run = run
+        # kernel harness driving private functions with stub containers: a TypeError / AttributeError at that contact is a
+        # mismatch between stubs and tree, not a finding (vlib.runner)
+        self.stub_kernel = stub_kernel
 
 
 def load(prop):
